@@ -361,6 +361,43 @@ pub fn oracle(ctx: &mut Ctx) {
                 }
             }
         }
+        // the manual's meaning of the plain switches and of the strip / keep lists (MANUAL.txt), flag by flag
+        {
+            let has = |t: &str| fv.tokens.iter().any(|x| x == t);
+            let nx = has("nx");
+            let mut wrong: Vec<String> = vec![];
+            let mut expect = |name: &str, got: bool, want: bool| { if got != want { wrong.push(format!("{} is {}, the manual says {}", name, got, want)); } };
+            expect("force", o.force, has("force"));
+            expect("fix_errors", o.fix_errors, has("fix"));
+            expect("optimize_alpha", o.optimize_alpha, has("a"));
+            expect("scale_16", o.scale_16, has("scale16"));
+            expect("idat_recoding", o.idat_recoding, !has("nz"));
+            expect("bit_depth_reduction", o.bit_depth_reduction, !(has("nb") || nx));
+            expect("color_type_reduction", o.color_type_reduction, !(has("nc") || nx));
+            expect("palette_reduction", o.palette_reduction, !(has("np") || nx));
+            expect("grayscale_reduction", o.grayscale_reduction, !(has("ng") || nx));
+            let display: [&[u8; 4]; 7] = [b"cICP", b"iCCP", b"sRGB", b"pHYs", b"acTL", b"fcTL", b"fdAT"];
+            let set = |v: &Vec<[u8; 4]>| { let mut s: Vec<[u8; 4]> = v.clone(); s.sort(); s.dedup(); s };
+            let want_strip: Option<HStrip> = fv.tokens.iter().find_map(|t| {
+                if t == "s" || t == "strip=safe" { Some(HStrip::Safe) }
+                else if t == "strip=all" { Some(HStrip::All) }
+                else if let Some(l) = t.strip_prefix("strip=") { Some(HStrip::Strip(l.split(',').map(|n| n.as_bytes().try_into().unwrap()).collect())) }
+                else if let Some(l) = t.strip_prefix("keep=") {
+                    let mut v: Vec<[u8; 4]> = vec![];
+                    for n in l.split(',') { if n == "display" { v.extend(display.iter().map(|d| **d)); } else { v.push(n.as_bytes().try_into().unwrap()); } }
+                    Some(HStrip::Keep(v))
+                } else { None }
+            });
+            let same = match (&o.strip, want_strip.as_ref().unwrap_or(&HStrip::None)) {
+                (HStrip::None, HStrip::None) | (HStrip::Safe, HStrip::Safe) | (HStrip::All, HStrip::All) => true,
+                (HStrip::Strip(a), HStrip::Strip(b)) | (HStrip::Keep(a), HStrip::Keep(b)) => set(a) == set(b),
+                _ => false,
+            };
+            if !same { wrong.push(format!("strip policy is {:?}, the manual says {:?}", o.strip, want_strip.unwrap_or(HStrip::None))); }
+            if wrong.is_empty() { st.count("switches_as_manual"); } else {
+                st.fail("flag-meaning", format!("{} ({})", wrong.join("; "), args.join(" ")), replay.clone());
+            }
+        }
         let Some(lib) = lib_expected(&case.input, &o) else {
             st.count("library_error");
             continue;
